@@ -497,3 +497,19 @@ theorem supportLevels_spec' {t : Tbl} (hw : WFU t) (u : Int) (hm : t.Mem u) :
       exact nodup_full t.nvars L nd b (by omega) i (by rw [← hl]; exact hW.lvl_lt _ _ hn)
 
 end DD
+
+namespace DD
+
+/-- `is_essential(u, var)` by name: `false` for an undeclared name, otherwise the
+dependence of `u` on the variable's level -/
+theorem isEssential_spec' {t : Tbl} (hw : WFU t) (u : Int) (hm : t.Mem u) (var : String) :
+    (t.vars[var]? = none → isEssential t u var = .ok false) ∧
+    (∀ i, t.vars[var]? = some i → i < t.nvars →
+      ∃ b, isEssential t u var = .ok b ∧ (b = true ↔ dependsOn t u i)) := by
+  constructor
+  · intro h; simp [isEssential, h]
+  · intro i h hi
+    obtain ⟨b, e, s⟩ := isEssentialF_spec hw hi (t.nvars + 2) u hm (by omega)
+    exact ⟨b, by simp [isEssential, h, e], s⟩
+
+end DD
